@@ -58,7 +58,7 @@ fn text_of(run: &Run, j: usize) -> String {
     let mut t = format!("c32·{:x}·{}", run.seed & 0xffff, j);
     let mut k = 0u8;
     while t.len() < run.text_len.max(8) as usize {
-        t.push((b'a' + (k + j as u8) % 26) as char);
+        t.push((b'a' + k.wrapping_add(j as u8) % 26) as char);
         k = k.wrapping_add(1);
     }
     t
